@@ -303,7 +303,7 @@ func TestC19Demux(t *testing.T) {
 			if rapid.IntRange(0, 5).Draw(t, "fault") == 0 {
 				faultOn = rapid.IntRange(0, len(w.routes)-1).Draw(t, "faultbe")
 				faultCode = rapid.SampledFrom(append([]codes.Code{codes.NotFound}, faultCodes...)).Draw(t, "faultcode")
-				setFault(w.routes[faultOn].faulty, w.routes[faultOn].seen, 0, faultCode)
+				setFault(w.routes[faultOn].faulty, w.routes[faultOn].seen, 0, faultCode, drawBurst(t))
 				firedBefore = w.routes[faultOn].faulty.FiredCount()
 			}
 			// faultFired: the armed back end failed a call of this operation.
